@@ -8,6 +8,7 @@ ids=("$@"); [ ${#ids[@]} -eq 0 ] && ids=($(ls seeded | grep -E '^C[0-9]+-[0-9]+$
 for id in "${ids[@]}"; do
   prop=${id%-*}; d=seeded/$id
   patch=$d/patch.diff; [ -f $d/patch.ported.diff ] && patch=$d/patch.ported.diff
+  if [ -f $d/neutralised.txt ]; then echo -e "$id\t$prop\tNEUTRALISED-BY-FIX\t$(head -1 $d/neutralised.txt | cut -c1-80)\t-" >> /tmp/seedtest.$$.tsv; continue; fi
   if ! ./run.sh list | grep -qw $prop; then echo -e "$id\t$prop\tNOT-CLAIMED\t-" >> /tmp/seedtest.$$.tsv; continue; fi
   out=$(./mutest.sh $prop $patch 2>&1)
   st=$(echo "$out" | head -1 | awk '{print $1}')
